@@ -242,7 +242,7 @@ def _install_wrappers():
         r = orig_mcall(self, market_book)
         run = CUR
         if run is not None:
-            run.held[self.market_id] = run.pt_index.get(self.market_id, {}).get(market_book.publish_time_epoch)
+            run.held[self.market_id] = run.index_of(self.market_id, market_book.publish_time_epoch, holding=True)
         return r
 
     Market.__call__ = market_call
@@ -769,6 +769,14 @@ class BacktestRun:
         self.pt_index = {
             m["id"]: {u["pt"]: j for j, u in enumerate(m["updates"])} for m in scenario["markets"]
         }
+        self.same_pt = {}
+        for m in scenario["markets"]:
+            seen = {}
+            for j, u in enumerate(m["updates"]):
+                seen.setdefault(u["pt"], []).append(j)
+            d = {pt: js for pt, js in seen.items() if len(js) > 1}
+            if d:
+                self.same_pt[m["id"]] = d
         self.fw = None
         self.clients = []
         self.agents = []
@@ -825,9 +833,23 @@ class BacktestRun:
                 raise _F["FlumineException"]("injected")
             raise ValueError("injected")
 
+    def index_of(self, mid, pt, holding=False):
+        """Index of the update of `mid` with publish time `pt`. Two consecutive updates of one market may carry the same
+        publish time (scenario key same_pt): the one being processed is then the first such index after the previous one."""
+        dups = self.same_pt.get(mid)
+        if dups and pt in dups:
+            if holding:
+                return self.cur_index.get(mid)
+            prev = self.cur_index.get(mid)
+            for j in dups[pt]:
+                if prev is None or j > prev:
+                    return j
+            return dups[pt][-1]
+        return self.pt_index.get(mid, {}).get(pt)
+
     def _update_start(self, mb):
         mid = mb.market_id
-        j = self.pt_index.get(mid, {}).get(mb.publish_time_epoch)
+        j = self.index_of(mid, mb.publish_time_epoch)
         self.cur_index[mid] = j
         self.cur_pt[mid] = mb.publish_time_epoch
         self.now_ms = mb.publish_time_epoch
